@@ -15,12 +15,12 @@ Definition ex_b1 : batch := [(1, Some 10); (2, Some 11)].
 Definition ex_b2 : batch := [(2, Some 12); (3, Some 13)].
 Definition ex_b3 : batch := [(1, None)].
 
-(* batch 1 written, persisted, committed and acknowledged; batch 2 introduced, its file and a
-   garbage file 77 written, nothing committed for it yet *)
+(* batch 1 written, persisted, committed and acknowledged; batch 2 introduced and its file
+   written, nothing committed for it yet *)
 Definition ex_pre : list devent :=
   [ DCore (EIntroduce 1 ex_b1 []); DFileWritten 1; DPrepare (mkBrec 1 [(1, [])] []);
     DCore (EPersist [1]); DCommit; DAck 1;
-    DCore (EIntroduce 2 ex_b2 []); DFileWritten 2; DFileWritten 77 ].
+    DCore (EIntroduce 2 ex_b2 []); DFileWritten 2 ].
 
 (* ... then batch 2 committed as well (second rollback point) and a third batch introduced *)
 Definition ex_long : list devent :=
@@ -28,17 +28,17 @@ Definition ex_long : list devent :=
               DCore (EIntroduce 3 ex_b3 []) ].
 
 Example ex_pre_accepted :
-  no_rollback ex_pre = true /\ eff ex_pre = [ex_b1; ex_b2]
+  eff ex_pre = [ex_b1; ex_b2]
   /\ option_map (fun d => (map br_epoch (d_bolt d), d_files d, d_acked d, covered d, d_up d))
                 (drun dinit ex_pre)
-     = Some ([1], [77; 2; 1], [1%nat], 1%nat, true).
+     = Some ([1], [2; 1], [1%nat], 1%nat, true).
 Proof. vm_compute. repeat split; reflexivity. Qed.
 
 (* crash_recovers_prefix / recover_succeeds / acked_survive: batch 2 is lost as a whole, batch 1
-   (acknowledged) survives; file 2 and the garbage file are cleaned up *)
+   (acknowledged) survives; file 2, which no committed record names, is cleaned up *)
 Example ex_crash_recover :
   exists d d1 d2,
-    no_rollback ex_pre = true /\ drun dinit ex_pre = Some d
+    drun dinit ex_pre = Some d
     /\ d_bolt d <> [] /\ dstep d DCrash = Some d1 /\ dstep d1 DRecover = Some d2
     /\ covered d = 1%nat /\ firstn (covered d) (eff ex_pre) = [ex_b1]
     /\ map (root_lookup (root (d_core d2))) [1; 2; 3] = [Some 10; Some 11; None]
@@ -54,8 +54,8 @@ Proof.
     vm_compute in H2. discriminate.
 Qed.
 
-(* garbage_tolerant: the same crash, but at reopen file 2 and the garbage file are gone and other
-   garbage (98, 99) has appeared: the recovered root is the same *)
+(* garbage_tolerant: the same crash, but at reopen file 2 is gone and garbage (98, 99) has
+   appeared: the recovered root is the same *)
 Example ex_garbage :
   exists d d1 d2 d2',
     drun dinit ex_pre = Some d /\ dstep d DCrash = Some d1 /\ dstep d1 DRecover = Some d2
@@ -77,7 +77,7 @@ Example ex_long_accepted :
   /\ option_map (fun d => (map br_epoch (d_bolt d), d_files d, d_acked d, covered d,
                            map (root_lookup (root (d_core d))) [1; 2; 3]))
                 (drun dinit ex_long)
-     = Some ([1; 3], [77; 2; 1], [2%nat; 1%nat], 2%nat, [None; Some 12; Some 13]).
+     = Some ([1; 3], [2; 1], [2%nat; 1%nat], 2%nat, [None; Some 12; Some 13]).
 Proof. vm_compute. repeat split; reflexivity. Qed.
 
 (* recover_then_continue: crash, recover (batch 3 lost), then index a fourth batch: the
@@ -106,13 +106,18 @@ Proof.
   vm_compute. repeat split; reflexivity.
 Qed.
 
-(* newest_never_purged / quiescent clean-up: the old rollback point can be purged, the newest
-   cannot; afterwards the unnamed garbage file can be removed, the named ones cannot *)
+(* newest_never_purged / purge: after a third commit (the root is now segment 2 alone) the two
+   older rollback points can be purged, the newest cannot; then file 1 is named by nobody and can
+   be removed, file 2 cannot *)
+Definition ex_purge_tr : list devent :=
+  ex_long ++ [DPrepare (mkBrec 5 [(2, [])] []); DCommit; DPurgeBolt [1; 3]].
+
 Example ex_purge :
-  option_map (fun d => (map br_epoch (d_bolt d), d_files d)) (drun dinit (ex_long ++ [DPurgeBolt [1]; DRemoveZap 77]))
-    = Some ([3], [2; 1])
-  /\ drun dinit (ex_long ++ [DPurgeBolt [3]]) = None
-  /\ drun dinit (ex_long ++ [DPurgeBolt [1]; DRemoveZap 1]) = None.
+  option_map (fun d => (map br_epoch (d_bolt d), d_files d)) (drun dinit (ex_purge_tr ++ [DRemoveZap 1]))
+    = Some ([5], [2])
+  /\ drun dinit (ex_purge_tr ++ [DPurgeBolt [5]]) = None
+  /\ drun dinit (ex_purge_tr ++ [DRemoveZap 2]) = None
+  /\ drun dinit (ex_long ++ [DRemoveZap 1]) = None.
 Proof. vm_compute. repeat split; reflexivity. Qed.
 
 (* copy_sources_survive: a copy is started while segment 1 is in the root; the next batch
@@ -136,10 +141,9 @@ Proof.
   vm_compute. repeat split; reflexivity.
 Qed.
 
-(* acked_since_rollback_survive: after a rollback to the first point the old acknowledgement of
-   batch 2 exceeds what is covered (that batch was deliberately discarded); the history goes on —
-   recover, a new second batch, persisted, committed, acknowledged, crash, recover — and the new
-   acknowledgement is covered *)
+(* acked_survive / acked_since_rollback_survive: a rollback to the first point discards batch 2
+   together with its acknowledgement; the history goes on — recover, a new second batch,
+   persisted, committed, acknowledged, crash, recover — and the new acknowledgement is covered *)
 Definition ex_rb_pre : list devent := ex_long ++ [DCrash; DRollback 1].
 Definition ex_rb_post : list devent :=
   [ DRecover; DCore (EIntroduce 5 [(7, Some 70)] []); DFileWritten 5;
@@ -149,7 +153,7 @@ Definition ex_rb_post : list devent :=
 Example ex_acks_since_rollback :
   exists d0 d,
     drun dinit ex_rb_pre = Some d0 /\ no_rollback ex_rb_post = true /\ drun d0 ex_rb_post = Some d
-    /\ d_acked d0 = [2%nat; 1%nat] /\ covered d0 = 1%nat
+    /\ d_acked d0 = [1%nat] /\ covered d0 = 1%nat
     /\ d_acked d = [2%nat] ++ d_acked d0 /\ covered d = 2%nat
     /\ eff (ex_rb_pre ++ ex_rb_post) = [ex_b1; [(7, Some 70)]]
     /\ map (root_lookup (root (d_core d))) [1; 2; 3; 7] = [Some 10; Some 11; None; Some 70].
@@ -158,13 +162,13 @@ Proof.
   split; [vm_compute; reflexivity|]. vm_compute. repeat split; reflexivity.
 Qed.
 
-(* no_name_reuse_partial / prepare_current_root_enabled on the state after [ex_long] *)
+(* no_name_reuse / prepare_current_root_enabled on the state after [ex_long] *)
 Example ex_fresh_id_and_prepare :
   exists d d',
     drun dinit ex_long = Some d /\ d_up d = true /\ d_tx d = None
     /\ dstep d (DCore (EIntroduce 9 [(4, Some 40)] [])) = Some d'
     /\ batch_updates [(4, Some 40)] <> []
-    /\ map fst (d_segdocs d) = [2; 1]
+    /\ map fst (d_segdocs d) = [2; 1] /\ d_files d = [2; 1]
     /\ option_map d_tx (dstep d (DPrepare (mkBrec (epoch (d_core d))
                             (map (fun s => (sid s, sdel s)) (root (d_core d)))
                             (internal (d_core d)))))
@@ -172,7 +176,42 @@ Example ex_fresh_id_and_prepare :
 Proof.
   eexists. eexists. split; [vm_compute; reflexivity|]. split; [vm_compute; reflexivity|].
   split; [vm_compute; reflexivity|]. split; [vm_compute; reflexivity|].
-  split; [vm_compute; discriminate|]. split; vm_compute; reflexivity.
+  split; [vm_compute; discriminate|]. vm_compute. repeat split; reflexivity.
+Qed.
+
+(* clean_close: the persister has caught up with both batches; reopening changes nothing *)
+Example ex_clean_close :
+  let evs := firstn 12 ex_long in
+  exists d d1 d2,
+    drun dinit evs = Some d /\ d_up d = true /\ covered d = d_batches d /\ d_batches d = 2%nat
+    /\ dstep d DCrash = Some d1 /\ dstep d1 DRecover = Some d2
+    /\ map (root_lookup (root (d_core d2))) [1; 2; 3] = [Some 10; Some 12; Some 13]
+    /\ map (root_lookup (root (d_core d))) [1; 2; 3] = [Some 10; Some 12; Some 13].
+Proof.
+  cbv zeta. eexists. eexists. eexists.
+  split; [vm_compute; reflexivity|]. split; [vm_compute; reflexivity|].
+  split; [vm_compute; reflexivity|]. split; [vm_compute; reflexivity|].
+  split; [vm_compute; reflexivity|]. split; [vm_compute; reflexivity|].
+  vm_compute. split; reflexivity.
+Qed.
+
+(* protected files and DMergeAbort: the output of a merge in flight cannot be removed; once the
+   merge is abandoned its file is garbage and can be *)
+Definition ex_abort : list devent :=
+  [ DCore (EIntroduce 1 ex_b1 []); DFileWritten 1; DCore (EPersist [1]);
+    DCore (EMergeStart true [(7, [1])]); DFileWritten 7 ].
+
+Example ex_merge_abort :
+  exists d,
+    drun dinit ex_abort = Some d /\ protected d 7 /\ In 7 (d_files d)
+    /\ dstep d (DRemoveZap 7) = None
+    /\ option_map (fun d' => (d_files d', inflight (d_core d'), used_sids (d_core d')))
+                   (drun d [DMergeAbort 7; DRemoveZap 7])
+       = Some ([1], [], [7; 1]).
+Proof.
+  eexists. split; [vm_compute; reflexivity|].
+  split; [right; right; right; left; vm_compute; left; reflexivity|].
+  split; [vm_compute; left; reflexivity|]. split; vm_compute; reflexivity.
 Qed.
 
 (* ---------- regression examples: traces an earlier [dstep] accepted ---------- *)
@@ -223,6 +262,19 @@ Example cex_copy_rejected :
      = Some ([1], [1], [])
   /\ option_map d_files (drun dinit (firstn 6 cex_copy ++ [DCopyEnd [1]; DRemoveZap 1])) = Some [].
 Proof. vm_compute. repeat split; reflexivity. Qed.
+
+(* (4) a file written under an id that was never allocated: the "complete" file would pre-exist
+   segment 1 and satisfy the files check of DCommit although the segment was never written.
+   [DFileWritten] now demands an allocated id. *)
+Definition cex_unalloc : list devent :=
+  [ DFileWritten 1; DCore (EIntroduce 1 [(1, Some 10)] []); DPrepare (mkBrec 1 [(1, [])] []);
+    DCore (EPersist [1]); DCommit ].
+
+Example cex_unalloc_rejected :
+  drun dinit cex_unalloc = None /\ drun dinit (firstn 1 cex_unalloc) = None
+  /\ drun dinit (skipn 1 cex_unalloc) = None          (* without the file: EPersist is refused *)
+  /\ drun dinit (firstn 2 (skipn 1 cex_unalloc)) <> None.
+Proof. vm_compute. repeat split; try reflexivity. discriminate. Qed.
 
 (* copy_sources_survive_overlapping on that trace: copy B starts when one reference is held (by
    copy A); in the window one reference is released (A ends): segment 1 is still protected *)
